@@ -781,6 +781,37 @@ def fold_bin(op, l, r):
                     return const(a ** b)
         except TypeError:
             pass
+    # shifts and masks by powers of two are products / quotients / remainders (exact for every Python and numpy integer)
+    def _int(c):
+        return c[0] == 'c' and isinstance(c[1], int) and not isinstance(c[1], bool)
+
+    def _twice(t):
+        """E when t is 2 * E"""
+        if t[0] == 'bin' and t[1] == '*':
+            if t[2] == ('c', 2):
+                return t[3]
+            if t[3] == ('c', 2):
+                return t[2]
+        return None
+    if op == '<<':
+        if _int(r) and 0 <= r[1] < 62:
+            return fold_bin('*', l, const(2 ** r[1]))
+        if l == ('c', 1):
+            e = _twice(r)
+            return ('bin', '**', const(4), e) if e is not None else ('bin', '**', const(2), r)
+    if op == '>>':
+        if _int(r) and 0 <= r[1] < 62:
+            return fold_bin('//', l, const(2 ** r[1]))
+        e = _twice(r)
+        if e is not None:
+            return ('bin', '//', l, ('bin', '**', const(4), e))
+    if op == '&':
+        for a_, m_ in ((l, r), (r, l)):
+            if _int(m_) and m_[1] >= 1 and (m_[1] + 1) & m_[1] == 0:
+                return fold_bin('%', a_, const(m_[1] + 1))
+            if m_[0] == 'bin' and m_[1] == '-' and m_[3] == ('c', 1) and m_[2][0] == 'bin' and m_[2][1] == '**' and \
+                    m_[2][2] in (('c', 2), ('c', 4)):
+                return ('bin', '%', a_, m_[2])
     return ('bin', op, l, r)
 
 
@@ -1104,6 +1135,13 @@ def subscript(base, idx):
 
 def simplify_call(t):
     _, fn, args, kws = t
+    # list(<generator>) is the list comprehension; tuple / sorted / set of a generator take a list comprehension
+    if fn[0] == 'g' and fn[1] in ('builtins.list', 'builtins.tuple', 'builtins.sorted', 'builtins.set', 'builtins.frozenset') and \
+            len(args) == 1 and not kws and args[0][0] == 'comp' and args[0][1] == 'gen':
+        lc = ('comp', 'list') + args[0][2:]
+        if fn[1] == 'builtins.list':
+            return lc
+        return ('call', fn, (lc,), kws)
     if fn == ('g', 'builtins.len') and len(args) == 1 and not kws:
         a = args[0]
         if a[0] == 'c' and isinstance(a[1], str):
@@ -1113,6 +1151,9 @@ def simplify_call(t):
     if fn == ('g', 'builtins.int') and len(args) == 1 and not kws and args[0][0] == 'c' \
             and isinstance(args[0][1], int):
         return args[0]
+    if fn == ('g', 'builtins.int') and len(args) == 1 and not kws and args[0][0] == 'call' and \
+            args[0][1] in (('g', 'builtins.len'), ('g', 'builtins.int')):
+        return args[0]          # int(len(x)) is len(x)
     if fn == ('g', 'builtins.str') and len(args) == 1 and not kws and args[0][0] == 'c' \
             and isinstance(args[0][1], (int, str)) and not isinstance(args[0][1], bool):
         return const(str(args[0][1]))
